@@ -218,26 +218,35 @@ void XMLWriter::init(const template_t& templ)
     endElement();
 }
 
+/* Branchpoints get ids of their own ("bp<nr>"), locations are "id<nr>".
+ * The returned number is only used for the layout: locations >= 0, branchpoints < 0. */
+static std::string endpoint_id(const location_t* loc, const branchpoint_t* bp)
+{
+    if (loc != nullptr)
+        return concat("id", loc->nr);
+    if (bp != nullptr)
+        return concat("bp", bp->bpNr);
+    throw XMLWriterError("edge without endpoint");
+}
+
 /* writes the source of the given edge */
 int XMLWriter::source(const edge_t& edge)
 {
-    int loc = edge.src->nr;
-    const auto id = concat("id", loc);
+    const auto id = endpoint_id(edge.src, edge.srcb);
     startElement("source");
     writeAttribute("ref", id.c_str());
     endElement();
-    return loc;
+    return edge.src ? edge.src->nr : -1 - edge.srcb->bpNr;
 }
 
 /* writes the target of the given edge */
 int XMLWriter::target(const edge_t& edge)
 {
-    int loc = edge.dst->nr;
-    const auto id = concat("id", loc);
+    const auto id = endpoint_id(edge.dst, edge.dstb);
     startElement("target");
     writeAttribute("ref", id.c_str());
     endElement();
-    return loc;
+    return edge.dst ? edge.dst->nr : -1 - edge.dstb->bpNr;
 }
 
 void XMLWriter::selfLoop(const int loc, const double initialAngle, const edge_t& edge)
@@ -271,11 +280,13 @@ void XMLWriter::nail(int x, int y)
 void XMLWriter::transition(const edge_t& edge)
 {
     startElement("transition");
+    if (!edge.control)
+        writeAttribute("controllable", "false");
     // source and target
     auto src = source(edge);
     auto dst = target(edge);
     if (src == dst) {
-        float angle = (edge.src->uid.get_name() != "lpmin") ? (3 * M_PI_2) : M_PI;
+        float angle = (edge.src == nullptr || edge.src->uid.get_name() != "lpmin") ? (3 * M_PI_2) : M_PI;
         selfLoop(src, angle, edge);
     } else {
         int x = STEP * src;
@@ -328,6 +339,14 @@ void XMLWriter::taTempl(const template_t& templ)
     for (auto& loc : templ.locations) {
         location(loc);
         selfLoops[loc.nr] = 0;
+    }
+    // branchpoints
+    for (auto& bp : templ.branchpoints) {
+        startElement("branchpoint");
+        writeAttribute("id", concat("bp", bp.bpNr).c_str());
+        writeAttribute("x", std::to_string(STEP * bp.bpNr + STEP / 2).c_str());
+        writeAttribute("y", std::to_string(STEP * bp.bpNr).c_str());
+        endElement();
     }
     // initial location
     init(templ);
